@@ -79,6 +79,22 @@ CHECKS = {
                      "experiment), per-trial and overall statistics recomputed from what the backend handed to the loop.",
                 note="Bounded: k<=1 (quick) / k<=2 (thorough), W<=2, 4 trials, 3 levels, a 12-value alphabet for extra metrics.",
                 technique="stateless model checking of the implementation (deviation-bounded enumeration of environment answers, recomputation oracle)"),
+    "C07": dict(engine="enumx", category="exploration", design_ref="§2 C07",
+                text="Bounded-exhaustive input enumeration: every domain constructor x a parameter lattice (bounds incl. lower==upper, "
+                     "sizes, category lists, q, cast_int) x every point of finite input lattices (stub-RNG answer alphabet, all members, "
+                     "unit-cube lattice incl. corners and rounding-cell boundaries, active sub-ranges, fixed last values), plus ordered "
+                     "pairs/triples of representative domains, against a membership oracle written from the constructor arguments.",
+                note="Input-space enumeration, not a protocol state graph, hence 'exploration'. Decided on the lattice only: bounds <= 2**40, "
+                     "<= 6 categories, sizes <= 50; 'relative 1e-7' w.r.t. the value for log domains, w.r.t. max(|v|,|lo|,|hi|) otherwise.",
+                technique="bounded-exhaustive enumeration of a finite input lattice against an independent reference (no sampling)"),
+    "C14": dict(engine="schedx", category="model_checking", design_ref="§2 C14",
+                text="Explicit-state BFS over suggest/report/fail histories of the real Hyperband (stopping, promotion) and synchronous "
+                     "Hyperband schedulers with GP-based searchers (random phase): invariant on the searcher's tuning-job state after every "
+                     "event (observed levels = policy-selected first reports with the reported values; pending entries only for running "
+                     "trials at unobserved levels).",
+                note="Bounded: W=2, T<=3, listed rung systems, F<=1, state cap per configuration in the quick tier (reported in evidence); "
+                     "no surrogate fit (num_init_random huge) so only data bookkeeping is judged; DyHPO not covered.",
+                technique="explicit-state model checking of the implementation (BFS over event histories, state invariant)"),
 }
 
 NOT_YET = {}
